@@ -140,3 +140,47 @@ Definition pserve (st : option icfg) (debug : bool) (r : request) (pre : hmap) :
 Definition handler_safe (t : ptag) : bool := match t with Own | ReqSlice _ => true | _ => false end.
 (* allocation sites executed: one per Own slice (Header.Add / Header.Set / append) *)
 Definition own_count (m : tmap) : nat := length (filter (fun kv => match snd kv with Own => true | _ => false end) m).
+
+(* ---- the tie to the source (C12, C18): every write to a header map in the request-handling functions of
+   middleware.go, as tools/genconc extracts them on every run (coq/Gen/ProvSrc.v) ---- *)
+Inductive wmap := MresHdrs | Mbuf.
+Inductive sgl := PreflightVarySgl | TrueSgl | OriginSgl | WildcardSgl | WildcardAuthSgl.   (* package-level singletons of internal/headers *)
+Inductive cfgfield := Acah | Acma | Aceh.                                                  (* slice-typed fields of internalConfig *)
+Inductive wkindp :=
+| WAdd | WSet | WDel          (* Header.Add / Header.Set / Header.Del *)
+| WAppend                     (* m[k] = append(...) *)
+| WCopy                       (* maps.Copy(resHdrs, buf) *)
+| WShared (s : sgl)           (* m[k] = headers.XxxSgl *)
+| WReq (k : bytes)            (* m[k] = a (sub-)slice of the request's own header k *)
+| WCfg (f : cfgfield)         (* m[k] = icfg.<field> *)
+| WUnknown.
+Definition wev := (wmap * bytes * wkindp)%type.
+
+Definition tag_of_w (w : wkindp) : option ptag :=
+  match w with
+  | WAdd | WSet | WAppend => Some Own
+  | WShared PreflightVarySgl => Some (Shared ShPreflightVary)
+  | WShared TrueSgl => Some (Shared ShTrue)
+  | WShared WildcardSgl => Some (Shared ShWildcard)
+  | WShared WildcardAuthSgl => Some (Shared ShWildcardAuth)
+  | WReq k => Some (ReqSlice k)
+  | WCfg Acah => Some (CfgSlice true)
+  | WCfg Acma => Some (CfgSlice false)
+  | _ => None
+  end.
+
+Definition ptag_eqb (a c : ptag) : bool :=
+  match a, c with
+  | Own, Own => true
+  | ReqSlice k, ReqSlice k' => beqb k k'
+  | Shared ShPreflightVary, Shared ShPreflightVary | Shared ShTrue, Shared ShTrue
+  | Shared ShWildcard, Shared ShWildcard | Shared ShWildcardAuth, Shared ShWildcardAuth => true
+  | CfgSlice x, CfgSlice y => Bool.eqb x y
+  | _, _ => false
+  end.
+
+(* a write the wrapped handler may see without reaching anything shared *)
+Definition handler_safe_w (w : wev) : bool := match snd w with WAdd | WSet | WReq _ => true | _ => false end.
+(* a write the model accounts for (a buffer copy installs what the buffer holds) *)
+Definition modelled_w (w : wev) : bool :=
+  match snd w with WCopy => true | k => match tag_of_w k with Some _ => true | None => false end end.
